@@ -48,7 +48,7 @@ func (f *FShape) Key() string {
 type WField struct {
 	Mode    string `json:"mode"`               // sync | promise | pre (promise already fulfilled when returned)
 	Err     string `json:"err,omitempty"`      // resolver error message ("" = success)
-	ErrKind string `json:"err_kind,omitempty"` // ptr | value : dynamic kind of the Go error value
+	ErrKind string `json:"err_kind,omitempty"` // ptr | value | nilslice | nilmap : dynamic kind of the Go error value (nil*: a nil slice / map of an error type, next to a value; Err is then MsgNilSliceErr / MsgNilMapErr)
 	NilErr  bool   `json:"nil_err,omitempty"`  // success, but the error result is a typed nil pointer
 	V       *WVal  `json:"v,omitempty"`        // the resolved value when Err == ""
 }
@@ -255,6 +255,8 @@ func (c *Case) ShapeKey() string {
 const MsgNonNull = "Null result for non-null field."
 const MsgNotList = "Result is not a list."
 const MsgCoerce = "Unexpected result"
+const MsgNilSliceErr = "slice-kind error (nil slice)"
+const MsgNilMapErr = "map-kind error (nil map)"
 
 func compSexp(t *TShape, w *WVal) hx.Sexp {
 	if w == nil {
